@@ -304,6 +304,10 @@ class QvmCpu:
                     return False
             else:
                 self.tick()
+            if self.halted:
+                # the program ended (or trapped) in this tick; a
+                # breakpoint must not hide that.
+                continue
             for bp in self.breakpoints:
                 if bp(self):
                     self.last_breakpoint = bp
